@@ -191,6 +191,9 @@ func c19genEdits(s *sim.Sim, n int) []c19edit {
 		default:
 			e.events = []string{"write"}
 		}
+		if s.Choose(sim.SWork, 8) == 0 {
+			e.events = append([]string{"overflow"}, e.events...)
+		}
 		e.wait = []time.Duration{0, 10 * time.Millisecond, 60 * time.Millisecond, 150 * time.Millisecond, time.Second, 3 * time.Second}[s.Choose(sim.SWork, 6)]
 		if (e.kind == "valid" || e.kind == "recreated") && !e.torn && s.Choose(sim.SWork, 5) == 0 {
 			e.mtime = []string{"older", "same"}[s.Choose(sim.SWork, 2)]
@@ -351,6 +354,11 @@ func c19Dev(s *sim.Sim, p *sim.Params) {
 		case "chmod":
 			fsnotify.Emit(file, fsnotify.Chmod)
 			s.Fault("spurious-event")
+		case "overflow":
+			// the kernel's event queue overflowed (a build tool touched thousands of files): the
+			// watcher reports an error and goes on watching
+			fsnotify.EmitError(file, fsnotify.ErrEventOverflow)
+			s.Fault("watcher-error")
 		case "rename-save":
 			fsnotify.Emit(file+".tmp", fsnotify.Create)
 			fsnotify.Emit(file+".tmp", fsnotify.Write)
@@ -782,7 +790,21 @@ func c19Library(s *sim.Sim, p *sim.Params) {
 			os.RemoveAll(file)
 		}
 		blip := !slow && (e.kind == "valid" || e.kind == "recreated") && s.Choose(sim.SFault, 4) == 0
+		typo := !slow && !blip && (e.kind == "valid" || e.kind == "recreated") && s.Choose(sim.SFault, 4) == 0
 		switch {
+		case typo:
+			// the save lands just before a poll; at the very instant the debounce timer of that
+			// poll fires the developer saves a typo (a content that does not compile) and undoes it
+			// well before the next poll: whichever of the two contents the load attempt read,
+			// the valid one is on disk from then on and has to end up running
+			s.Fault("typo-saved-and-undone-as-debounce-fires")
+			tick := 500 * time.Millisecond
+			s.Sleep(tick - s.Now()%tick - 10*time.Millisecond)
+			put(content, e.mtime)
+			s.Sleep(210 * time.Millisecond)
+			put(c19content("parse-error", e.version), "")
+			s.Sleep(60 * time.Millisecond)
+			put(content, "")
 		case blip:
 			// the save lands just before a poll; the file is briefly absent when the debounce
 			// timer of that poll fires (an editor replacing it, a sync tool), and is back with the
